@@ -221,21 +221,24 @@ def addNoise (r : Rat) (zs : List (List (List Rat))) : M Unit :=
     let nd ← noiseData r zs d
     setNoisy nd
 
-/-- One curve of `_sparsify_univariate_data`: first `choice`, then the fallback if fewer
-than two samples are kept.  `repl = true` is the fallback of the tree before the repair
+/-- The fallback of `_sparsify_univariate_data`: if fewer than two samples are kept, a second
+`choice` draws two indices.  `repl = true` is the fallback of the tree before the repair
 (sampling with replacement). -/
+def fallbackMask (repl : Bool) (n : Nat) (m0 : List Bool) (pair : Nat × Nat) : M (List Bool) :=
+  if countTrue m0 < 2 then
+    call "rchoice"
+      (if repl then
+        (if pair.1 < n ∧ pair.2 < n then pure (setPair m0 (pairIdxRepl pair)) else raise .script)
+       else if n < 2 then raise .population
+       else if pair.1 < n ∧ pair.2 < n - 1 then pure (setPair m0 (pairIdx pair))
+       else raise .script)
+  else pure m0
+
+/-- One curve of `_sparsify_univariate_data`: first `choice`, then the fallback. -/
 def sparsifyCurve (repl : Bool) (n : Nat) (p e : Rat) (row : List Rat) (s : CurveScript) :
     M (List (Option Rat)) := do
   call "rchoice" (guardS (s.m.length == n && row.length == n))
-  let m0 := maskOf (percOf p e s.u) s.m
-  let m ← if countTrue m0 < 2 then
-      call "rchoice"
-        (if repl then
-          (if s.pair.1 < n ∧ s.pair.2 < n then pure (setPair m0 (pairIdxRepl s.pair)) else raise .script)
-         else if n < 2 then raise .population
-         else if s.pair.1 < n ∧ s.pair.2 < n - 1 then pure (setPair m0 (pairIdx s.pair))
-         else raise .script)
-    else pure m0
+  let m ← fallbackMask repl n (maskOf (percOf p e s.u) s.m) s.pair
   pure (applyMask m row)
 
 def sparsifyCurves (repl : Bool) (n : Nat) (p e : Rat) :
@@ -286,20 +289,18 @@ def sparsify (repl : Bool) (p e : Rat) (ss : List (List CurveScript)) : M Unit :
 def combined (repl : Bool) (r : Rat) (zs : List (List (List Rat))) (p e : Rat)
     (ss : List (List CurveScript)) : M Unit := do
   addNoise r zs
-  let s ← getSim
-  let tmp := s.data
-  setData s.noisy
-  tryFinally (sparsify repl p e ss) (setData tmp)
+  let s ← getSim                  -- tmp = self.data  (kept in `s.data`)
+  setData s.noisy                 -- self.data = self.noisy_data
+  tryFinally (sparsify repl p e ss) (setData s.data)
 
 /-- The same operation as coded before the repair: no `finally`. -/
 def combinedCoded (repl : Bool) (r : Rat) (zs : List (List (List Rat))) (p e : Rat)
     (ss : List (List CurveScript)) : M Unit := do
   addNoise r zs
   let s ← getSim
-  let tmp := s.data
   setData s.noisy
   sparsify repl p e ss
-  setData tmp
+  setData s.data
 
 /-- Run an operation from a simulator state under a fault schedule. -/
 def run (x : M Unit) (sim : Sim) (failAt : Option Nat) : Except Err Unit × St :=
